@@ -705,6 +705,33 @@ func (c *Client) writeBuffersNoWait(p net.Buffers) error {
 	return nil
 }
 
+// WriteAck is like write, yet it does not wait for pending connects. The read
+// routine can't wait, as it is the one to make them.
+func (c *Client) writeAck(p []byte) error {
+	// lock write
+	conn, ok := <-c.writeSem
+	switch {
+	case !ok:
+		return ErrClosed
+	case conn == connDown, conn == connPending:
+		c.writeSem <- conn // unlock
+		return ErrDown
+	}
+
+	// transfer
+	err := writeTo(conn, p, c.PauseTimeout)
+	if err != nil {
+		if !nonNilIsAny(err, connClosedErrors) {
+			conn.Close() // signal read routine
+		}
+		c.writeSem <- connPending // unlock write; pending connect
+		return errors.Join(ErrSubmit, err)
+	}
+
+	c.writeSem <- conn // unlock write
+	return nil
+}
+
 // WriteTo submits the packet. Keep synchronised with writeBuffers!
 func writeTo(conn net.Conn, p []byte, idleTimeout time.Duration) error {
 	if idleTimeout != 0 {
@@ -1216,7 +1243,7 @@ func (c *Client) readSlices() (message, topic []byte, err error) {
 				return nil, nil, err
 			}
 		}
-		err := c.write(nil, c.pendingAck)
+		err := c.writeAck(c.pendingAck)
 		if err != nil {
 			c.toOffline()
 			return nil, nil, err // keeps pendingAck to retry
@@ -1404,7 +1431,7 @@ func (c *Client) onPUBLISH(head byte) (message, topic []byte, err error) {
 		}
 		if bytes != nil {
 			// The broker may have missed the first PUBREC.
-			err = c.write(nil, bytes)
+			err = c.writeAck(bytes)
 			if err != nil {
 				return nil, nil, err
 			}
@@ -1443,7 +1470,7 @@ func (c *Client) onPUBREL() error {
 		return fmt.Errorf("mqtt: internal error: ack %#x pending during PUBREL reception", c.pendingAck)
 	}
 	c.pendingAck = append(c.pendingAck, typePUBCOMP<<4, 2, byte(packetID>>8), byte(packetID))
-	err = c.write(nil, c.pendingAck)
+	err = c.writeAck(c.pendingAck)
 	if err != nil {
 		return err // causes resubmission of PUBCOMP
 	}
